@@ -240,7 +240,7 @@ fn extension_additions(input: Input<'_>) -> ParserResult<'_, ()> {
                         pair(
                             terminated(
                                 alt((value(None, tag(MIN)), map(asn1_value, Some))),
-                                skip_ws_and_comments(opt(char(GREATER_THAN))),
+                                skip_ws_and_comments(opt(char(LESS_THAN))),
                             ),
                             preceded(
                                 range_seperator,
@@ -306,7 +306,7 @@ fn value_range(input: Input<'_>) -> ParserResult<'_, SubtypeElements> {
             (
                 terminated(
                     alt((value(None, tag(MIN)), map(asn1_value, Some))),
-                    skip_ws_and_comments(opt(char(GREATER_THAN))),
+                    skip_ws_and_comments(opt(char(LESS_THAN))),
                 ),
                 preceded(
                     range_seperator,
